@@ -80,7 +80,8 @@ def run(ctx, chk):
                        'URI is covered by the done-mask handed to the revert routine or freed locally before a failure '
                        'return; (f) read-only inputs have empty write/free summaries on all paths; (g) list integrity at every '
                        'return of the functions that free or link path-segment nodes (freed node unlinked from what the cleanup '
-                       'walks, linked malloc node terminated). NOT decided: freedom from leaks for structures that already '
+                       'walks, linked malloc node terminated); (h) every field the release functions read is written in a '
+                       'malloc\'ed node before the node escapes or is handed to a reader. NOT decided: freedom from leaks for structures that already '
                        'escaped into the URI in general, i.e. the full statement for every k.')
     memrules.rule_typestate(ctx, chk, eng, kinds=('unchecked-alloc', 'leak-at-exit', 'lost-block', 'double-free',
                                                    'use-after-free'), rule='alloc-discipline')
@@ -97,4 +98,12 @@ def run(ctx, chk):
     chk.analysed['list_functions'] = nf
     chk.analysed['node_free_sites'] = nfree
     chk.analysed['node_link_sites'] = nlink
+    from ..initrules import rule_node_init
+    chk.rule('node-init', 'a malloc\'ed list node (path segment, query item) has every field the release functions read (taken from '
+             'their current source) written before it is reachable from caller-visible memory at a return or handed to a library '
+             'function that reads the field', floor=6)
+    nf, nsites, fields, rel = rule_node_init(ctx, chk)
+    chk.analysed['node_malloc_functions'] = nf
+    chk.analysed['node_malloc_sites'] = nsites
+    chk.analysed['release_read_fields'] = fields
     chk.analysed['functions'] = len(ctx.irp.funcs)
